@@ -25,6 +25,8 @@ CONSTANTS
   RenewTTLTicks = 3
   Realloc = FALSE
   StopChan = "once"
+  MaxU = 1
+  ExhaustionReturnsLast = FALSE
   WithLapse = FALSE
   Emit = FALSE
 INIT Init
